@@ -56,7 +56,17 @@ class DataLoader:
             if len(idx) < self.batch_size and self.drop_last:
                 return
             if hasattr(self.dataset, "__getitems__"):
+                from .scalar import is_sym as _is_sym
+
+                # indices may be symbolic (a sampler's order): handed over as 0-dim integer tensors, so that any comparison
+                # the dataset code makes on them goes through the explorer
+                idx = [T.Tensor(i, T.int64) if _is_sym(i) else i for i in idx]
                 items = self.dataset.__getitems__(idx)
             else:
+                from . import explore
+                from .scalar import is_sym
+
+                # item-by-item datasets index python lists: a symbolic index is case-split over its feasible values
+                idx = [explore.EXP.concretize_int(i, 0, n) if is_sym(i) else i for i in idx]
                 items = [self.dataset[i] for i in idx]
             yield self.collate_fn(items)
